@@ -145,11 +145,24 @@ func runCase(p payload) (o outcome) {
 		// under the guard as well: RunContext starts the VM before it looks at
 		// the context, and the first instructions may be an excluded operation
 		// (range(1 << 40, 0) ran unguarded here in the thorough tier and was
-		// reported as a hang)
-		guarded(func() {
-			defer func() { pan0 = recover() }()
-			_ = c.RunContext(ctx)
-		}, p.AllowCycles)
+		// reported as a hang). The guard's instruction budget would also hide
+		// a run that ignores its cancelled context: a cancelled run that uses
+		// up all 3,000,000 instructions, three times in a row, did ignore it.
+		ignored := 0
+		for try := 0; try < 3; try++ {
+			st0 := guarded(func() {
+				defer func() { pan0 = recover() }()
+				_ = c.RunContext(ctx)
+			}, p.AllowCycles)
+			if st0.Reason() != "budget" {
+				break
+			}
+			ignored++
+		}
+		if ignored == 3 {
+			o.fail = fmt.Sprintf("RunContext with an already-cancelled context kept executing until the harness stopped it after %d instructions (three times out of three)", instrBudget)
+			return
+		}
 		if pan0 != nil {
 			o.fail = fmt.Sprintf("RunContext with an already-cancelled context panicked: %v", pan0)
 			return
